@@ -24,6 +24,15 @@ def spec_check(ck, cases, tag):
         if "error" in ires[i]:
             ck.report(f"C03.{c['kind']}.exception", f"implementation raised {ires[i]['error']}", {"case": gen.jsonable(c)})
             continue
+        if not gen.all_finite(ires[i]["states"]):
+            # NaN states: dynamic calibration with an exactly-zero local scale (finding F21) -- excluded like the other degenerate-scale
+            # cases; anything else is reported
+            if c["calib"].startswith("dyn"):
+                ck.hist.setdefault("spec_non_finite_degenerate_dynamic_skipped", {"n": 0})["n"] += 1
+            else:
+                ck.report(f"C03.{c['kind']}.{c['strat']}.{c['calib']}.non-finite-state",
+                          f"{c['kind']}/{c['strat']}/{c['lin']}/{c['calib']}: the solver produced non-finite states on a fixed grid", {"case": gen.jsonable(c)})
+            continue
         terms.append(lambda c=c, sts=ires[i]["states"]: gen.coq_spec_smooth(c, sts))
         idx.append(i)
     try:
